@@ -601,6 +601,10 @@ func (c *cctx) ghostField(base cval, g string, at ast.Expr) cval {
 		c.fail("undeclared ghost field #%s", g)
 		return c.boolVal(True)
 	}
+	if bx, isBx := base.v.(Bx); isBx {
+		// a local struct that lives in the heap (address taken): the object is its cell
+		base = cval{Sc{bx.P}, base.t}
+	}
 	id, ok := base.v.(Sc)
 	if !ok || !id.T.S.Eq(IntSort) {
 		c.fail("ghost field #%s of non-object %s", g, exprString(at))
